@@ -143,9 +143,12 @@ def consServerTls (cfg : Cfg) (ssl : Option Bool) : Bool :=
   | .sharedPlain => false
   | .sharedTls => true
 
-/-- `_start_event_sink`: a shared server that does not speak TLS is refused when the provider connection uses TLS -/
-def eventSinkAccepted (cfg : Cfg) (ssl : Option Bool) : Bool :=
+/-- `_start_event_sink`: a shared server that does not speak TLS is refused when the provider connection uses TLS.
+    The decision looks at the connection (`is_ssl_connection`), not at how the application spelled the provider address. -/
+def eventSinkAcceptedFor (cfg : Cfg) (ssl : Option Bool) (_addressSpelling : Scheme) : Bool :=
   !(ssl == some true && cfg.consServer == .sharedPlain)
+
+def eventSinkAccepted (cfg : Cfg) (ssl : Option Bool) : Bool := eventSinkAcceptedFor cfg ssl .https
 
 /-! ## the addresses written into messages -/
 
@@ -170,6 +173,9 @@ deriving DecidableEq, Repr
 def verifyMode (server : Bool) (caFile : Bool) : Verify :=
   if caFile then .certRequired else if server then .certNone else .certRequired
 
+/-- ... whether or not a cyphers string is configured as well -/
+def verifyModeWith (server : Bool) (caFile : Bool) (_cyphers : Bool) : Verify := verifyMode server caFile
+
 /-! ## `mk_ssl_contexts_from_folder` -/
 
 inductive FolderResult
@@ -184,5 +190,9 @@ def fromFolder (keyPresent certPresent caNamed caPresent : Bool) : FolderResult 
   else if !certPresent then .fileNotFound
   else if caNamed && !caPresent then .fileNotFound
   else .contexts (verifyMode false caNamed) (verifyMode true caNamed)
+
+/-- the same with a cyphers file named in the call (it exists in the folder): no influence on the verify modes -/
+def fromFolderWith (keyPresent certPresent caNamed caPresent _cyphers : Bool) : FolderResult :=
+  fromFolder keyPresent certPresent caNamed caPresent
 
 end Sdc.Tls
